@@ -55,6 +55,19 @@ prop('C07',
           'overflowing_add_signed/sub_signed against the documented leap-line model (stay in / leave / skip the leap second as if it were the only one), '
           'signed_duration_since on the joint leap line (antisymmetric), offset shifts, and the date-time forms with the carry applied to the date.')
 
+prop('C04',
+     title='Zone-aware date-times: one instant, many wall clocks',
+     verus=['datetime', 'time'],
+     kani=['vk_fixed_offset_ctor', 'vk_dt_eq_ord_hash', 'vk_dt_from_utc_conversions', 'vk_dt_from_local', 'vk_dt_wallclock_date_getters', 'vk_dt_wallclock_time_getters'],
+     kani_thorough=['vk_dt_wallclock_week_getters'],
+     uncovered=['DateTime<Tz>::with_* / checked_add_days / checked_add_months (map_local closures + TimeZone::from_local_datetime of an arbitrary Tz)',
+                'formatting of DateTime (core::fmt)', 'time zones other than Utc / FixedOffset (Local is C05)', 'DateTime::naive_local/date_naive (documented to panic out of range)'],
+     text='Verus proves the offset shifts on the real text: NaiveTime::overflowing_add/sub_offset (sub-second field kept, day carry in {-1,0,1}), '
+          'NaiveDateTime::checked_add/sub_offset (Some exactly when the other reading stays in range, wall = utc +/- offset exactly) and overflowing_add/sub_offset '
+          '(always exact thanks to the one-day sentinels). Kani proves for every UTC date-time x every offset in (-24h, 24h): FixedOffset::east_opt/west_opt, '
+          'from_utc_datetime/from_local_datetime round trips and their failure condition, Eq/Ord/Hash depend only on the instant, with_timezone/fixed_offset/to_utc '
+          'keep the instant, and all Datelike/Timelike getters read the wall clock (also one day beyond the nominal range).')
+
 prop('C06',
      title='Durations are exact signed nanosecond counts within a closed range',
      verus=['timedelta'],
@@ -110,7 +123,7 @@ prop('C19',
 
 # properties not (or not yet) claimed: every id of properties.jsonl is either in PROPS or here
 NOT_APPLICABLE = {
-    'C04': 'not built yet', 'C05': 'not built yet',
+    'C05': 'not built yet',
  'C10': 'not built yet', 'C12': 'not built yet',
     'C14': 'not built yet', 'C15': 'not built yet', 'C16': 'not built yet',
     'C09': 'print->parse round trip lives in core::fmt and &str scanning with iterator adapters: no function contract within reach of Verus (no str bytes) and only bounded exploration in Kani, which is another technique',
